@@ -332,9 +332,9 @@ Emit == Terminal => PrintT(<<"SCHED", step>>)
 (* request alphabets for the configurations *)
 AskAll == {r \in State \X State : r[2] # ST /\ r[1] # r[2]}
 AskCore == {<<BO, JO>>, <<BO, SY>>, <<SY, JO>>, <<SY, CO>>, <<JO, CO>>, <<CO, SY>>, <<JO, SY>>,
-            <<BO, BR>>, <<BR, BO>>, <<ST, BO>>, <<ST, JO>>, <<SY, HA>>, <<HA, CO>>, <<HA, SY>>}
+            <<BO, BR>>, <<BR, BO>>, <<ST, BO>>, <<ST, JO>>, <<ST, SY>>, <<SY, HA>>, <<HA, CO>>, <<HA, SY>>}
 AskSched == {<<BO, JO>>, <<BO, CO>>, <<BO, SY>>, <<SY, CO>>, <<JO, CO>>, <<ST, JO>>}
-AskHold == {<<BO, SY>>, <<ST, JO>>, <<ST, BO>>}
+AskHold == {<<BO, SY>>, <<ST, JO>>, <<ST, SY>>, <<ST, BO>>}
 AskY3 == {<<BO, JO>>, <<HA, CO>>, <<BO, SY>>, <<SY, HA>>}
 AskOut == {<<BO, JO>>, <<SY, JO>>}
 =============================================================================
